@@ -7,7 +7,7 @@ from litex.gen.sim import run_simulation
 from litex.gen.fhdl.verilog import convert
 class D(Module):
     def __init__(self):
-        self.mem = Memory(8, 4, init=[1, 2, 3, 4]); self.p = self.mem.get_port(mode=NO_CHANGE); self.specials += self.mem, self.p
+        self.mem = Memory(8, 4, init=[1, 2, 3, 4]); self.p = self.mem.get_port(mode=NO_CHANGE); self.specials += self.mem, self.p; self.clock_domains.cd_sys = ClockDomain("sys")
 d = D(); seen = []
 def tb():
     yield d.p.adr.eq(2); yield; yield
@@ -15,6 +15,6 @@ def tb():
 run_simulation(d, tb()); print("simulator: read of address 2 ->", seen)
 d2 = D()
 try:
-    convert(d2, ios={d2.p.adr, d2.p.dat_r}, name="top"); print("convert() succeeded"); raise SystemExit(1)
+    convert(d2, ios={d2.p.adr, d2.p.dat_r, d2.cd_sys.clk, d2.cd_sys.rst}, name="top"); print("convert() succeeded"); raise SystemExit(1)
 except TypeError as e:
     print("convert() raised TypeError:", e); raise SystemExit(0 if seen == [3] else 1)
